@@ -138,11 +138,15 @@ def main():
         for wd in (Fraction(1, 2), 1, 3):
             for td in (('float32',) if (a.tier == 'quick' and wd != 1) else ('float32', 'float64')): units.append(('bin', B, wd, td))
     units += [('mi', 2, 2), ('mi', 3, 2), ('edges', 3), ('edges', 4), ('edges', 5), ('refuse',)]
+    units += [('miainv', 'float32', 3, -1, 2), ('miainv', 'float64', 2, 0, '1/2'), ('miainv', 'float32', 4, '1/4', '3/8'), ('miainv', 'uint8', 3, 0, 64)]      # the whole kernel by loop invariants, every extent symbolic
     def work(sub, kind, *args):
         if kind == 'bin': binning(u, sub, args[0], args[1], args[2], timeout)
         elif kind == 'mi': mi_compute(u, sub, args[0], args[1], timeout)
         elif kind == 'edges': edges_setter(u, sub, args[0], timeout)
         elif kind == 'refuse': edges_refusals(u, sub)
+        elif kind == 'miainv':
+            from props import kernel_inv as KI
+            KI.report(sub, KI.mia_core(u, args[0], args[1], args[2], args[3]), 'MIA kernel loop invariants, all extents symbolic, %s traces, %d bins from %s of width %s' % args, KN.MM + '::MIADistinguisherMixin._accumulate_core', timeout, [(1, 1, 1), (1, 1, 0)], native, dict(kind='bin'))
     P.run_units(rep, work, units)
     rc, o, so, se = R.run_native('props.c13_native', ['bounded', str(seed), a.tier], timeout=2400)
     if o is None: rep.errors.append('native stand-in failed: %s %s' % (so[-400:], se[-900:]))
